@@ -1086,7 +1086,7 @@ impl Compiler {
         if !params.is_empty() {
             func_compiler
                 .builder
-                .reserve_registers(params.len() as u8)?;
+                .reserve_registers(params.len())?;
         }
 
         // Compile parameter declarations
@@ -2019,7 +2019,7 @@ impl Compiler {
         if !ctor.params.is_empty() {
             func_compiler
                 .builder
-                .reserve_registers(ctor.params.len() as u8)?;
+                .reserve_registers(ctor.params.len())?;
         }
 
         // Compile parameter declarations inline (same as compile_function_body)
